@@ -225,6 +225,13 @@ def main(argv=None):
         pre = plan.get("precheck")
         pre_out = pre(ctx) if pre else {}
         results = []
+        if pre_out.get("abort"):
+            # the encoder disagrees with the real code on concrete inputs: nothing it says is believed
+            for ob in [o for o in obligations if o.kind == "z3"]:
+                results.append({"id": ob.id, "kind": ob.kind, "desc": ob.desc, "bounds": ob.bounds, "param": ob.param,
+                                "known_findings": [], "violations": [], "verdict": "INCONCLUSIVE",
+                                "why": "encoder validation failed: " + str(pre_out["abort"])[:300], "rounds": [], "secs": 0})
+            obligations = [o for o in obligations if o.kind != "z3"]
         with cf.ThreadPoolExecutor(max_workers=a.jobs) as ex:
             futs = {ex.submit(discharge, ob, ctx): ob for ob in obligations}
             for f in cf.as_completed(futs):
